@@ -75,6 +75,17 @@ void embedded_pairing_bls12_381_zp_from_hash(embedded_pairing_core_bigint_256_t*
 }
 
 void embedded_pairing_bls12_381_g1_add(embedded_pairing_bls12_381_g1_t* result, const embedded_pairing_bls12_381_g1_t* a, const embedded_pairing_bls12_381_g1_t* b) {
+    /*
+     * The second operand of Projective::add is __restrict: it must not be the
+     * object that receives the sum. The C interface makes no such promise, so
+     * a result that aliases b is given a copy of b to read from.
+     */
+    if (static_cast<const void*>(result) == static_cast<const void*>(b)) {
+        G1 second;
+        second.copy(*reinterpret_cast<const G1*>(b));
+        reinterpret_cast<G1*>(result)->add(*reinterpret_cast<const G1*>(a), second);
+        return;
+    }
     reinterpret_cast<G1*>(result)->add(*reinterpret_cast<const G1*>(a), *reinterpret_cast<const G1*>(b));
 }
 
@@ -127,6 +138,17 @@ bool embedded_pairing_bls12_381_g1affine_equal(const embedded_pairing_bls12_381_
 }
 
 void embedded_pairing_bls12_381_g2_add(embedded_pairing_bls12_381_g2_t* result, const embedded_pairing_bls12_381_g2_t* a, const embedded_pairing_bls12_381_g2_t* b) {
+    /*
+     * The second operand of Projective::add is __restrict: it must not be the
+     * object that receives the sum. The C interface makes no such promise, so
+     * a result that aliases b is given a copy of b to read from.
+     */
+    if (static_cast<const void*>(result) == static_cast<const void*>(b)) {
+        G2 second;
+        second.copy(*reinterpret_cast<const G2*>(b));
+        reinterpret_cast<G2*>(result)->add(*reinterpret_cast<const G2*>(a), second);
+        return;
+    }
     reinterpret_cast<G2*>(result)->add(*reinterpret_cast<const G2*>(a), *reinterpret_cast<const G2*>(b));
 }
 
